@@ -2,6 +2,7 @@
 delimiter-structured (every element is  <tag|content>  with the brackets U+27E8 / U+27E9), so that a
 correlation query parses back into its elements; conversion of a generated rule collection; and the
 stand-alone conversion of every referenced rule (the "query that rule converts to on its own")."""
+from impl.excname import exc_name
 import copy
 from sigma.collection import SigmaCollection
 from sigma.correlations import (SigmaCorrelationRule, SigmaRuleReference, CorrelationConditionAND,
@@ -154,14 +155,14 @@ def run_corr(case):
             target = [r for r in coll.rules if r.title == docs[i]["title"]][0]
             own.append({"ok": list(target.get_conversion_result()), "fields": list(target.fields)})
         except Exception as e:  # noqa
-            own.append({"exc": type(e).__name__})
+            own.append({"exc": exc_name(e)})
     res["own"] = own
     # 2. the whole collection; the rule under test is the last document
     try:
         b, coll, out = convert_all(k, items, docs)
     except Exception as e:  # noqa
         from sigma.exceptions import SigmaError
-        res["err"] = {"exc": type(e).__name__, "sigma": isinstance(e, SigmaError), "msg": str(e)[:200]}
+        res["err"] = {"exc": exc_name(e), "sigma": isinstance(e, SigmaError), "msg": str(e)[:200]}
         return res
     target = [r for r in coll.rules if r.title == docs[-1]["title"]][0]
     res["q"] = list(target.get_conversion_result())
@@ -196,7 +197,7 @@ def run_multi(case):
             target = [r for r in coll.rules if r.title == docs[i]["title"]][0]
             own.append({"ok": list(target.get_conversion_result()), "fields": list(target.fields)})
         except Exception as e:  # noqa
-            own.append({"exc": type(e).__name__})
+            own.append({"exc": exc_name(e)})
     res = [dict(own=own) for _ in tops]
     backend = make_backend(k)(make_pipeline(k, items))
     if case["mode"] == "one":
@@ -206,7 +207,7 @@ def run_multi(case):
             try:
                 convert_all(k, items, docs + [t])
             except Exception as e:  # noqa
-                return {"skip": "a correlation rule of the set fails on its own: " + type(e).__name__}
+                return {"skip": "a correlation rule of the set fails on its own: " + exc_name(e)}
         try:
             coll = SigmaCollection.from_dicts(copy.deepcopy(docs + [tops[i] for i in case["order"]]))
             backend.convert(coll)
@@ -215,7 +216,7 @@ def run_multi(case):
                 res[i].update(_describe(target))
         except Exception as e:  # noqa
             for r in res:
-                r["err"] = {"exc": type(e).__name__, "sigma": isinstance(e, SigmaError), "msg": str(e)[:200]}
+                r["err"] = {"exc": exc_name(e), "sigma": isinstance(e, SigmaError), "msg": str(e)[:200]}
     else:
         for i in case["order"]:
             try:
@@ -224,7 +225,7 @@ def run_multi(case):
                 target = [r for r in coll.rules if r.title == tops[i]["title"]][0]
                 res[i].update(_describe(target))
             except Exception as e:  # noqa
-                res[i]["err"] = {"exc": type(e).__name__, "sigma": isinstance(e, SigmaError), "msg": str(e)[:200]}
+                res[i]["err"] = {"exc": exc_name(e), "sigma": isinstance(e, SigmaError), "msg": str(e)[:200]}
     return res
 
 
